@@ -1,17 +1,78 @@
-(* Obligations for translated straight-line functions (masked-word toolkit, C10): the translated program
-   followed by an observation program equals a specification program over the same inputs, for all inputs. *)
+(* Obligations for translated straight-line functions (masked-word toolkit, masked keys and states: C10; nonce helpers:
+   C14): the translated program followed by an observation program equals a specification program over the same
+   inputs, for all inputs.
+
+   Only [fo_prog] (and the descriptor [fo_desc]) is information from the translator.  The observation and the
+   specification are DEFINED in Obl/MWordSpec.v ([std_post] / [std_spec] of the descriptor); the copies the translator
+   prints as [fo_post] / [fo_spec] (it evaluates them concretely to find counter-examples) must be syntactically
+   those, the descriptor must be well-formed against the input widths, and its function name must be the one
+   belonging to its kind and share count ([desc_wf]).  The soundness theorem is stated with [std_post] / [std_spec]. *)
 From Coq Require Import List Arith Bool String. Import ListNotations.
 From AsconV Require Import Sym.Wexpr Sym.Pipe.
+From AsconV Require Export Obl.MWordSpec.
 
-Record fn_obl := { fo_name : string; fo_widths : list nat; fo_prog : prog; fo_post : prog; fo_spec : prog }.
+Record fn_obl := { fo_name : string; fo_widths : list nat; fo_prog : prog; fo_post : prog; fo_spec : prog; fo_desc : fn_desc }.
+
+(* the generated specification side is the hand-written one *)
+Definition fn_spec_ok (o : fn_obl) : bool :=
+  desc_wf (fo_widths o) (fo_desc o) && prog_eqb (fo_post o) (std_post (fo_desc o)) && prog_eqb (fo_spec o) (std_spec (fo_desc o)).
 
 Definition fn_obl_ok (o : fn_obl) : bool :=
-  check_pipes (fo_widths o) (PSeq (PRun (fo_prog o)) (PRun (fo_post o))) (PRun (fo_spec o)).
+  fn_spec_ok o && check_pipes (fo_widths o) (PSeq (PRun (fo_prog o)) (PRun (fo_post o))) (PRun (fo_spec o)).
 
-Theorem fn_obl_sound (os : list fn_obl) : forallb fn_obl_ok os = true ->
+(* what is proved of a translated function: its descriptor is well-formed and names the function of its kind, and
+   for ALL inputs (share bytes, data bytes, random words; for assembly also the entry registers) the hand-written
+   observation of its outputs equals the hand-written specification of its inputs *)
+Definition fn_meets_std (o : fn_obl) : Prop :=
+  desc_wf (fo_widths o) (fo_desc o) = true /\
+  fd_fn (fo_desc o) = c_name (fd_kind (fo_desc o)) (fd_n (fo_desc o)) /\
+  forall v : list (list bool), widths_of v = fo_widths o ->
+  run BoolAlg (run BoolAlg v (fo_prog o)) (std_post (fo_desc o)) = run BoolAlg v (std_spec (fo_desc o)).
+
+Lemma desc_wf_name w d : desc_wf w d = true -> fd_fn d = c_name (fd_kind d) (fd_n d).
+Proof. unfold desc_wf. intros H. apply andb_true_iff in H. destruct H as [_ H]. now apply String.eqb_eq. Qed.
+
+Lemma fn_obl_ok_sound o : fn_obl_ok o = true -> fn_meets_std o.
+Proof.
+  unfold fn_obl_ok, fn_spec_ok. intros H. apply andb_true_iff in H. destruct H as [H HC].
+  apply andb_true_iff in H. destruct H as [H HS]. apply andb_true_iff in H. destruct H as [HW HP].
+  apply prog_eqb_eq in HP. apply prog_eqb_eq in HS. rewrite HP, HS in HC.
+  split; [exact HW|]. split; [exact (desc_wf_name _ _ HW)|]. intros v Wv. exact (check_pipes_sound _ _ _ HC v Wv).
+Qed.
+
+Theorem fn_obl_sound (os : list fn_obl) : forallb fn_obl_ok os = true -> forall o, In o os -> fn_meets_std o.
+Proof. intros H o Ho. rewrite forallb_forall in H. exact (fn_obl_ok_sound o (H o Ho)). Qed.
+
+(* ---- coverage: the hand-written requirement lists of Obl/MWordSpec.v (req_toolkit, req_ops, ...) against a table *)
+Definition req_in (tab : list fn_obl) (q : fn_req) : bool := existsb (fun o => desc_meets q (fo_desc o)) tab.
+Definition covers (tab : list fn_obl) (reqs : list fn_req) : bool := forallb (req_in tab) reqs.
+
+Definition covered (tab : list fn_obl) (reqs : list fn_req) : Prop :=
+  forall k be n max, In (k, be, n, max) reqs ->
+  exists o, In o tab /\ fd_kind (fo_desc o) = k /\ fd_be (fo_desc o) = be /\ fd_n (fo_desc o) = n /\ fd_max (fo_desc o) = max.
+
+Lemma covers_sound tab reqs : covers tab reqs = true -> covered tab reqs.
+Proof.
+  unfold covers, covered. intros H k be n max I. rewrite forallb_forall in H. specialize (H _ I).
+  unfold req_in in H. apply existsb_exists in H. destruct H as [o [Io M]]. exists o. split; [exact Io|].
+  exact (desc_meets_sound _ _ _ _ _ M).
+Qed.
+
+(* the statement of the C10 / C14 (T) theorems: every obligation of the table meets the hand-written specification of
+   its descriptor, and every required (kind, value algebra, shares, MAX_SHARES) has an obligation in the table - whose
+   function is then, by [fn_meets_std], the C function named [c_name kind shares] *)
+Definition table_correct (tab : list fn_obl) (reqs : list fn_req) : Prop :=
+  (forall o, In o tab -> fn_meets_std o) /\ covered tab reqs.
+
+Theorem table_sound tab reqs : forallb fn_obl_ok tab = true -> covers tab reqs = true -> table_correct tab reqs.
+Proof. intros H C. split; [exact (fn_obl_sound tab H)|exact (covers_sound tab reqs C)]. Qed.
+
+(* the same fact stated with the printed copies (equal to std_post / std_spec by [fn_spec_ok]); kept for the older
+   statement Props.C14_helpers_translated *)
+Theorem fn_obl_sound_printed (os : list fn_obl) : forallb fn_obl_ok os = true ->
   forall o, In o os -> forall v : list (list bool), widths_of v = fo_widths o ->
   run BoolAlg (run BoolAlg v (fo_prog o)) (fo_post o) = run BoolAlg v (fo_spec o).
 Proof.
-  intros H o Ho v Wv. rewrite forallb_forall in H. specialize (H o Ho).
-  exact (check_pipes_sound _ _ _ H v Wv).
+  intros H o Ho v Wv. rewrite forallb_forall in H. specialize (H o Ho). unfold fn_obl_ok in H.
+  apply andb_true_iff in H. destruct H as [_ HC]. exact (check_pipes_sound _ _ _ HC v Wv).
 Qed.
